@@ -498,6 +498,95 @@ def derived(chk, thorough):
     core.reset_world()
 
 
+def service(chk, thorough):
+    """Service.tla: logger handlers / DEBUG switch / Calculator.cdm after any history; computations independent of all of it"""
+    import importlib
+    import logging
+    m = impl.pb()
+    U = m.Unit
+    L = importlib.import_module("py_ballisticcalc.logger")
+    d = dict(Files='{"f1", "f2"}', Calcs='{"c1", "c2"}', Tables='{"t1", "t2"}', MaxOps=3)
+    cfg, defs = core.consts(d)
+    chk.tlc(core.run_tlc("Service", cfg + "SPECIFICATION Spec\nINVARIANT S_AtMostOneFileHandler\nINVARIANT S_AttachedIsConsolePlusFile\n"
+                         "INVARIANT S_NoOpenHandlerLeft\nINVARIANT S_LevelFollowsDebug\nPROPERTY S_ComputeTouchesNoService\n"
+                         "PROPERTY S_ServiceTouchesNoCdm\n", defs=defs, coverage=True), "Service")
+    cfg, defs = core.consts(dict(d, MaxOps=5))
+    gen = core.run_tlc("Gen_Service", cfg + "SPECIFICATION GenSpec\nINVARIANT Emit\n", defs=defs, workers=1, tags=["BEH"],
+                       simulate=f"num={40 if thorough else 8}", depth=6, seed=chk.seed + 3)
+    behs = gen.out("BEH")
+    random.Random(chk.seed).shuffle(behs)
+    behs = behs[: (600 if thorough else 80)]
+    sdir = core.scratch()
+    models = {"t1": lambda: m.DragModel(0.3, m.TableG7), "t2": lambda: m.DragModel(0.45, [dict(p_) for p_ in m.TableG1 if p_["Mach"] <= 3.0])}
+    cfgs = {"c1": {"max_calc_step_size_feet": 1.0}, "c2": {"max_calc_step_size_feet": 1.0, "cMaximumDrop": -0.01}}   # c2's fire raises
+
+    def compute(calc, shot):
+        try:
+            return ("ok", tuple(float(r.height.raw_value).hex() for r in calc.fire(shot, U.Foot(24), U.Foot(8)).trajectory))
+        except m.RangeError as x:
+            return ("RangeError", x.reason, tuple(float(r.height.raw_value).hex() for r in x.incomplete_trajectory))
+
+    def mkshot(t):
+        return m.Shot(weapon=m.Weapon(U.Inch(2)), ammo=m.Ammo(models[t](), U.FPS(2600)))
+    L.disable_file_logging()
+    L.set_debug(False)
+    ref = {(c, t): compute(m.Calculator(_config=dict(cfgs[c])), mkshot(t)) for c in cfgs for t in models}
+    if ref[("c2", "t1")][0] != "RangeError" or ref[("c1", "t1")][0] != "ok":
+        raise core.MachineryError("Service: scenario outcomes not as built")
+    for b in behs:
+        L.disable_file_logging()
+        L.set_debug(False)
+        calcs = {c: m.Calculator(_config=dict(cfgs[c])) for c in cfgs}
+        shots_used = {}
+        seen = {}      # file -> handler objects created for it
+        for step, e in enumerate(b):
+            op = e["op"]
+            k = {"module": "Service", "op": op["a"]}
+            det = {"behaviour": b, "step": step}
+            chk.count(1, ("service", step, op["a"], str(op["arg"]), e["fh"], e["debug"]))
+            chk.stratum("service_" + op["a"])
+            if op["a"] == "EnableFile":
+                L.enable_file_logging(str(sdir / (op["arg"] + ".log")))
+                seen.setdefault(op["arg"], []).append(L.file_handler)
+            elif op["a"] == "DisableFile":
+                L.disable_file_logging()
+            elif op["a"] == "SetDebug":
+                L.set_debug(op["arg"] == "on")
+            else:
+                c, t = op["arg"]
+                sh = mkshot(t)
+                shots_used[c] = sh
+                got = compute(calcs[c], sh)
+                if e["debug"] or e["fh"] != "none":
+                    chk.stratum("service_compute_while_logging")
+                if got != ref[(c, t)]:
+                    chk.violation("X.Service.ResultDependsOnLoggingState", k, {**det, "got_kind": got[0], "debug": e["debug"], "file": e["fh"]})
+            fhs = [h for h in L.logger.handlers if isinstance(h, logging.FileHandler)]
+            others = [h for h in L.logger.handlers if not isinstance(h, logging.FileHandler)]
+            names = sorted(os.path.basename(h.baseFilename)[:-4] for h in fhs)
+            if names != sorted(x for x in e["attached"] if x != "console") or len(others) != 1:
+                chk.violation("X.Service.HandlersAttached", k, {**det, "files": names, "other_handlers": len(others)})
+            if (L.file_handler is None) != (e["fh"] == "none"):
+                chk.violation("X.Service.FileHandlerState", k, det)
+            for f in e["closed"]:
+                for h in seen.get(f, []):
+                    if h is not L.file_handler and h.stream is not None and not h.stream.closed:
+                        chk.violation("X.Service.HandlerLeftOpen", k, {**det, "file": f})
+            if L.get_debug() != e["debug"] or L.logger.level != (logging.DEBUG if e["level"] == "DEBUG" else logging.INFO):
+                chk.violation("X.Service.LevelDoesNotFollowDebug", k, {**det, "debug": L.get_debug(), "level": L.logger.level})
+            for c, want in e["cdm"].items():
+                o = impl.outcome(lambda c=c: calcs[c].cdm)
+                if want == "none":
+                    chk.stratum("service_cdm_before_any_computation")
+                    if o[0] == "ok" and o[1]:
+                        chk.violation("X.Service.CdmBeforeAnyComputation", k, {**det, "calc": c, "got": repr(o[1])[:100]})
+                elif o[0] != "ok" or o[1] is not shots_used[c].ammo.dm.drag_table:
+                    chk.violation("X.Service.CdmIsNotTheLastTable", k, {**det, "calc": c, "want": want})
+    L.disable_file_logging()
+    L.set_debug(False)
+    chk.traces += len(behs)
+
+
 def run(chk: core.Check, replay=None) -> None:
     core.use_repo(hooks=False)
     core.reset_world()
@@ -509,9 +598,10 @@ def run(chk: core.Check, replay=None) -> None:
     output(chk, thorough)
     validation(chk, thorough)
     derived(chk, thorough)
-    chk.require_strata(["derived_stable", "derived_no_drift", "derived_level", "derived_muzzle", "derived_fire_stable", "derived_fire_no_drift", "validation_BCPoint", "validation_DragModel", "validation_Sight", "validation_MultiBC", "validation_rejected", "validation_accepted", "output", "output_Assign", "output_LoadPreset", "atmo_SetHumidity", "atmo_Query", "atmo_rejected", "results_flag_names", "results_zeros", "results_no_extra",
+    service(chk, thorough)
+    chk.require_strata(["service_EnableFile", "service_DisableFile", "service_SetDebug", "service_Compute", "service_compute_while_logging", "service_cdm_before_any_computation", "derived_stable", "derived_no_drift", "derived_level", "derived_muzzle", "derived_fire_stable", "derived_fire_no_drift", "validation_BCPoint", "validation_DragModel", "validation_Sight", "validation_MultiBC", "validation_rejected", "validation_accepted", "output", "output_Assign", "output_LoadPreset", "atmo_SetHumidity", "atmo_Query", "atmo_rejected", "results_flag_names", "results_zeros", "results_no_extra",
                         "results_no_zero_rows", "cfgload_ValueError", "cfgload_searched", "cfgload_explicit-file",
                         "cfgload_arguments-applied", "vectors"])
-    chk.rule.append("extra specification modules beyond the listed properties (Atmo, Results, ConfigLoad, VectorAlg, Output, Validation, Derived), each with TLC design "
+    chk.rule.append("extra specification modules beyond the listed properties (Atmo, Results, ConfigLoad, VectorAlg, Output, Validation, Derived, Service), each with TLC design "
                     "check and exhaustive / simulated replay into the real code")
-    chk.sample({"modules": ["Atmo", "Results", "ConfigLoad", "VectorAlg", "Output", "Validation", "Derived"]})
+    chk.sample({"modules": ["Atmo", "Results", "ConfigLoad", "VectorAlg", "Output", "Validation", "Derived", "Service"]})
